@@ -16,7 +16,7 @@ ASSUMPTIONS = ["error *status* is compared (a documented argument error must be 
 
 
 def plan(tier):
-    return {"budget_s": 50 if tier == "quick" else 450, "profiles": ["R"], "min_evaluations": 20000}
+    return {"budget_s": 50 if tier == "quick" else 450, "profiles": ["R"], "min_evaluations": 2000}
 
 
 ATOMS = [V.num(1), V.num(2), V.num(3), V.num(-1), V.num(0), V.num(1.5), V.num(10, "px"), V.s("a"), V.s("b", False), V.s("c", False),
